@@ -464,7 +464,7 @@ func stringShapes() []string {
 // backslash escape of every kind, bad UTF-8 - at the start, in the middle and at the end.
 func longStringShapes() []string {
 	var out []string
-	for _, n := range sweepSizes(130, 256, 1024, 4096) {
+	for _, n := range sweepSizes(300, 1024, 4096) {
 		out = append(out, plainString(n, 'x'))
 	}
 	var specials []string
